@@ -71,3 +71,9 @@ reg("C14", "exploration", "runtime monitor: differential execution against go/pa
 reg("C37", "exploration", "runtime monitor: round-trip togo(fromgo(f)) per declaration compared through go/printer header text, panic capture, on repository + 20 std packages' .go files (generics, unions, tags, iota, func-typed vars) and generated Go files",
     "Every declaration of every file is converted both ways by the real code and its printed header must be identical to the original's.",
     "Function and closure bodies are removed on both sides (the conversion documents that it skips them); Doc/Comment fields cleared.")
+reg("C40", "exploration", "runtime monitor: recorded call/return histories at the client boundary checked for linearizability against a sequential set-of-flags model with porcupine (partitioned by directory), -race build, yield hooks between Unlock and Broadcast, quiescent-point inspection hook, goroutine-state deadlock monitor for lost wake-ups",
+    "Every history is produced by the real watcher under concurrent producers/consumers with few keys; porcupine decides each history; a lost wake-up is decided logically by the deadlock monitor (all goroutines blocked on synchronisation primitives), never by a timeout.",
+    "Interleavings are sampled, not enumerated (the property's 'exhaustively in the model' half is outside this family); porcupine timeout = inconclusive.")
+reg("C41", "exploration", "runtime monitor: framed byte streams with per-writer sequence numbers and checksums over fakenet connection pairs (io.Pipe/os.Pipe/net.Pipe), close at random points, post-close call oracle, -race build, yield hooks inside the feeder, goroutine-state deadlock monitor for stuck calls",
+    "Unique (writer, seq) frames make order/loss/duplication/corruption decidable from the received bytes; every call started after Close returned must yield (0, io.EOF); stuck pending calls end in the deadlock monitor.",
+    "One reader per direction; closing the reading end may drop data its feeder already holds (inherent, outside the statement).")
